@@ -44,6 +44,7 @@ SPEC = {
   'assumptions': [
     'is_leaf is never true at the root (DESIGN §7; the excluded point is theorem root_leaf_guard, finding F7: observed, not reported)',
     'a leaf is never the empty_node sentinel itself; leaves are not Mappings',
+    'the tree model is container-kind agnostic: a dict node stands for any accepted mapping (dict or FrozenDict, mixed at any depth); the harness feeds plain, frozen and mixed inputs',
     'separator-joined keys: the separator does not occur in key + sep[:-1] (NoOverlap); for a 1-character separator this is '
     '"not in any key"; the weaker reading fails for longer separators (theorem sep_overlap_counterexample, proposed finding sep-overlap)',
     'sibling keys of a State are all str or all int (Python cannot sort mixed paths); try_convert_int is modelled on optional "-" + ASCII digits',
@@ -253,6 +254,39 @@ def plain(t):
 # ------------------------------------------------------------------------------------------------
 
 
+def dict_paths(j, prefix=()):
+  """paths of the dict nodes below the root (empty dicts included)"""
+  out = []
+  if 'L' in j:
+    return out
+  for k, v in j['D']:
+    if 'D' in v:
+      out.append(list(prefix) + [k])
+      out += dict_paths(v, tuple(prefix) + (k,))
+  return out
+
+
+def build_tree(j, frozen=False, fpaths=()):
+  """the Python input for a tree JSON: plain dicts, with a FrozenDict at the root (`frozen`) and/or at the given
+  inner paths (`fpaths`) — mixed containers. The model is container-kind agnostic (any Mapping is a dict node)."""
+  fset = {tuple(p) for p in fpaths}
+
+  def go(t, path):
+    if 'L' in t:
+      return t['L']
+    d = {k: go(v, path + (k,)) for k, v in t['D']}
+    return FrozenDict(d) if (path in fset or (frozen and path == ())) else d
+
+  return go(j, ())
+
+
+def gen_fpaths(rng, j, p=0.45):
+  dps = [q for q in dict_paths(j) if len(q) <= 3]
+  if not dps or rng.random() > p:
+    return []
+  return rng.sample(dps, min(len(dps), rng.randrange(1, 3)))
+
+
 def fv_json(v, empty):
   return 'E' if v is empty else {'V': tj(v)}
 
@@ -275,7 +309,8 @@ def check_rt(ctx, drv, cases, libs=('tu', 'nnx')):
     sep_bad = sep is not None and (sep == '' or any(overlaps(sep, k) for k in keys))
     in_domain = not root_leaf and not sep_bad
     nontrivial = tree_depth(tree) >= 2 or has_empty(tree)
-    ctx.case({k: c[k] for k in ('kind', 'tree', 'keep', 'isleaf', 'sep', 'frozen')}, nontrivial=nontrivial)
+    ctx.case({k: c.get(k) for k in ('kind', 'tree', 'keep', 'isleaf', 'sep', 'frozen', 'fpaths')}, nontrivial=nontrivial)
+    ctx.count('rt_containers', ('frozen-root+' if c.get('frozen') else 'dict-root+') + ('frozen-inside' if c.get('fpaths') else 'plain-inside'))
     ctx.count('rt_domain', 'in' if in_domain else ('root-leaf' if root_leaf else 'sep-overlap'))
     ctx.count('rt_isleaf', next(iter(spec)) if isinstance(spec, dict) else spec)
     ctx.count('rt_sep', repr(sep))
@@ -287,7 +322,7 @@ def check_rt(ctx, drv, cases, libs=('tu', 'nnx')):
     for lib in libs:
       flatten, unflatten, empty = LIBS[lib]
       # (outside the domain a declared-leaf FrozenDict may be assigned into, which the dict model does not render)
-      x = FrozenDict(x0) if c.get('frozen') and in_domain else jt(tree)
+      x = build_tree(tree, bool(c.get('frozen')), c.get('fpaths', ())) if in_domain else jt(tree)
       f = call(flatten, x, keep_empty_nodes=keep, is_leaf=isleaf, sep=sep)
       u = None
       snap = None
@@ -338,7 +373,7 @@ def check_rt(ctx, drv, cases, libs=('tu', 'nnx')):
         ctx.count('excluded_point', 'root-leaf:' + (i_rt[1] if i_rt[0] == 'err' else 'wrapped'))
       # ---- nnx.traversals.flatten_to_sequence / unflatten_mapping on a list of pairs
       if lib == 'nnx' and ci in seq_idx:
-        xs = FrozenDict(x0) if c.get('frozen') and in_domain else jt(tree)
+        xs = build_tree(tree, bool(c.get('frozen')), c.get('fpaths', ())) if in_domain else jt(tree)
         sq = call(nt.flatten_to_sequence, xs, is_leaf=isleaf)
         ctx.count('to_seq', sq[0])
         if in_domain:
@@ -452,7 +487,7 @@ def check_pam(ctx, drv, cases):
   for i, c in enumerate(cases):
     m_res, m_calls = outs[2 * i], outs[2 * i + 1]
     x0 = jt(c['tree'])
-    x = FrozenDict(x0) if c.get('frozen') else jt(c['tree'])
+    x = build_tree(c['tree'], bool(c.get('frozen')), c.get('fpaths', ()))
     f = py_f(c['f'])
     calls = []
 
@@ -463,6 +498,7 @@ def check_pam(ctx, drv, cases):
     r = call(tu.path_aware_map, g, x)
     ctx.case(c, nontrivial=tree_depth(c['tree']) >= 2 or has_empty(c['tree']))
     ctx.count('pam_f', next(iter(c['f'])))
+    ctx.count('pam_containers', ('frozen-root+' if c.get('frozen') else 'dict-root+') + ('frozen-inside' if c.get('fpaths') else 'plain-inside'))
     if r[0] != 'ok':
       ctx.violation('pam-raises', f'path_aware_map raised {r[1]} on {x0!r}', c)
       continue
@@ -1362,7 +1398,7 @@ def run(ctx):
     if isinstance(spec, dict) and 'depth' in spec:
       spec = {'depth': rng.randrange(1, 5)}
     sep = rng.choice(SEPS + ['.', '0', 'ab'])
-    rcases.append({'kind': 'rt', 'tree': t, 'keep': rng.random() < 0.5, 'isleaf': spec, 'sep': sep, 'frozen': rng.random() < 0.3})
+    rcases.append({'kind': 'rt', 'tree': t, 'keep': rng.random() < 0.5, 'isleaf': spec, 'sep': sep, 'frozen': rng.random() < 0.3, 'fpaths': gen_fpaths(rng, t, 0.3)})
   _batched(check_rt, ctx, drv, rcases)
   ctx.sample(rcases[0])
 
@@ -1382,10 +1418,14 @@ def run(ctx):
   for t in (trees if thorough else trees[:: 5]):
     pcases.append({'kind': 'pam', 'tree': t, 'f': {'affine': 100}, 'frozen': False})
     pcases.append({'kind': 'pam', 'tree': t, 'f': {'wrap': 'b'}, 'frozen': False})
+    dps = dict_paths(t)
+    if dps:  # mixed containers: every dict at depth 1 frozen / one inner dict frozen under a frozen or plain root
+      pcases.append({'kind': 'pam', 'tree': t, 'f': {'affine': 100}, 'frozen': False, 'fpaths': [q for q in dps if len(q) == 1]})
+      pcases.append({'kind': 'pam', 'tree': t, 'f': {'wrap': 'a'}, 'frozen': rng.random() < 0.5, 'fpaths': [rng.choice(dps)]})
   for _ in range(800 if not thorough else 10000):
     t = shuffled(rng, gen_tree(rng, rng.randrange(1, 6), rng.randrange(1, 5)))
     f = {'affine': rng.randrange(1, 1000)} if rng.random() < 0.6 else {'wrap': rng.choice(STR_KEYS)}
-    pcases.append({'kind': 'pam', 'tree': t, 'f': f, 'frozen': rng.random() < 0.3})
+    pcases.append({'kind': 'pam', 'tree': t, 'f': f, 'frozen': rng.random() < 0.3, 'fpaths': gen_fpaths(rng, t)})
   _batched(check_pam, ctx, drv, pcases)
   ctx.sample(pcases[-1])
 
